@@ -142,7 +142,7 @@ func runDump(cfg *config, res *monitor.Result) {
 		res.Inconc("VERIF_PROTODUMP not set")
 		return
 	}
-	n := 1600
+	n := 4000
 	if cfg.thorough() {
 		n = 40000
 	}
